@@ -175,6 +175,13 @@ Fixpoint sum (l : list Z) : Z := match l with [] => 0 | x :: r => x + sum r end.
 Definition hex_encode (addr typ : Z) (data : list Z) : list Z :=
   let body := Z.of_nat (length data) :: (addr / 256) :: (addr mod 256) :: typ :: data in
   58 :: hex_of (body ++ [(- sum body) mod 256]).
+(* record-specific tests of HEXline.set: extended segment / linear address records carry 2 bytes, start records 4; the
+   payload actually present must let int(v, 16) parse (non-empty; for CS:IP more than 2 bytes) *)
+Definition hex_rec_ok (typ cnt : Z) (data : list Z) : bool :=
+  if (typ =? 2) || (typ =? 4) then (cnt =? 2) && Nat.leb 1 (length data)
+  else if typ =? 3 then (cnt =? 4) && Nat.leb 3 (length data)
+  else if typ =? 5 then (cnt =? 4) && Nat.leb 1 (length data)
+  else true.
 Definition hex_decode (line : list Z) : option (Z * Z * Z * list Z) :=
   match line with
   | 58 :: r =>
@@ -185,7 +192,7 @@ Definition hex_decode (line : list Z) : option (Z * Z * Z * list Z) :=
               let body := removelast bytes in
               let ck := last bytes 0 in
               (* like HEXline.set, the count is not compared with the length of the line: data = line[9:9+2*count] *)
-              if (- sum body) mod 256 =? ck
+              if ((- sum body) mod 256 =? ck) && hex_rec_ok typ cnt (firstn (Z.to_nat cnt) rest)
               then Some (cnt, ah * 256 + al, typ, firstn (Z.to_nat cnt) rest) else None
           | _ => None
           end
@@ -224,19 +231,25 @@ Definition srec_asz (t : Z) : nat :=
 Definition srec_encode (t addr : Z) (data : list Z) : list Z :=
   let body := Z.of_nat (srec_asz t + length data + 1) :: enc true (srec_asz t) addr ++ data in
   83 :: (48 + t) :: hex_of (body ++ [255 - (sum body) mod 256]).
+(* address length in bytes as SRECline.size computes it: for count records (S5/S6) every byte but the checksum *)
+Definition srec_alen (t cnt : Z) : Z := if (t =? 5) || (t =? 6) then cnt - 1 else Z.of_nat (srec_asz t).
 Definition srec_decode (line : list Z) : option (Z * Z * list Z) :=
   match line with
   | 83 :: tc :: r =>
       let t := tc - 48 in
-      if (0 <=? t) && (t <=? 9) && negb (t =? 4) then
+      if (0 <=? t) && (t <=? 9) then
         match unhex r with
         | Some (cnt :: rest) =>
             let bytes := cnt :: rest in
             let body := removelast bytes in
             let ck := last bytes 0 in
+            let l := srec_alen t cnt in
             let payload := removelast rest in
-            if (Z.of_nat (length rest) =? cnt) && (Nat.leb (srec_asz t) (length payload)) && (255 - (sum body) mod 256 =? ck)
-            then Some (t, dec true (firstn (srec_asz t) payload), skipn (srec_asz t) payload) else None
+            let data := skipn (Z.to_nat l) payload in
+            (* address = int(line[4:4+l], 16) needs at least one digit; data = line[4+l:-2];
+               assert count == l/2 + len(data) + 1; then the checksum *)
+            if (1 <=? l) && negb (Nat.eqb (length rest) 0) && (cnt =? l + Z.of_nat (length data) + 1) && (255 - (sum body) mod 256 =? ck)
+            then Some (t, dec true (firstn (Z.to_nat l) rest), data) else None
         | _ => None
         end
       else None
